@@ -19,7 +19,18 @@ def units():
                     or "the-body-ran" in n)
     us = units_single_step() + [FunctionUnit(ResetContract()), FunctionUnit(StepLoop("interpreter")), FunctionUnit(StepLoop("generated")),
                                 FunctionUnit(SingleStepGenerated())]
-    return [FilteredUnit(u, mine) if isinstance(u, FunctionUnit) else u for u in us]
+    def mine_run(n):
+        # of the step loop (run): that a user exception leaves run() with the events so far forwarded; what a completed or
+        # failed step reports and when run() stops are C01's subject
+        return mine(n) and "/step/" not in n and "post[return]/" not in n
+    out = []
+    for u in us:
+        if isinstance(u, FunctionUnit):
+            is_run = isinstance(getattr(u, "contract", None), StepLoop)
+            out.append(FilteredUnit(u, mine_run if is_run else mine))
+        else:
+            out.append(u)
+    return out
 
 
 LEVEL = "proof"
